@@ -197,7 +197,8 @@ func selfTest(r *Report, repo, verif string) {
 			all, _ := filepath.Glob(filepath.Join(verif, "variants", kind, "ALL-*.patch"))
 			files = append(files, all...)
 			// behaviour-preserving refactorings written by independent maintainers-for-a-day (not generated by mkvariants.py)
-			ext, _ := filepath.Glob(filepath.Join(verif, "variants", "keep-ext", r.Prop+"-*.patch"))
+			// every one of them must leave every property's check silent, whichever property its author had in mind
+			ext, _ := filepath.Glob(filepath.Join(verif, "variants", "keep-ext", "*.patch"))
 			files = append(files, ext...)
 		}
 		sort.Strings(files)
